@@ -222,8 +222,8 @@ def evaluator_obligations(e, sizes, allow_nan=False, real=True):
 
 
 # ---------------------------------------------------------------------------------------------------- C13
-def c13_obligations(e, sizes, real=True):
-    for sub in (False, True):
+def c13_obligations(e, sizes, real=True, ops=(False, True)):
+    for sub in ops:
         opn = "sub" if sub else "add"
         funcs = ["<&Piecewise<T> as %s<&Piecewise<T>>>::%s" % ("Sub" if sub else "Add", opn)]
         for (n, m) in sizes:
